@@ -59,6 +59,14 @@ def run_cvc5(smt2, tlimit_ms):
         os.unlink(path)
 
 
+def _guarded_check(s, timeout_ms):
+    """Plain check().  z3's timeout is not honoured inside some integer procedures (observed: lp::dioph_eq), but a
+    watchdog *thread* is not an option: a second Python thread may run the garbage collector and release z3 ASTs
+    while the main thread is inside the solver (observed: heap corruption).  Hangs are handled by the parent
+    process, which kills a worker that exceeds the hard wall-clock limit (_run_pool)."""
+    return s.check()
+
+
 def _check(ob, with_defs, timeout, seed=None):
     s = z3.Solver()
     s.set('timeout', timeout)
@@ -68,7 +76,7 @@ def _check(ob, with_defs, timeout, seed=None):
     if with_defs:
         s.add(*ob.defs)
     s.add(z3.Not(ob.goal))
-    return s, s.check()
+    return s, _guarded_check(s, timeout)
 
 
 def _solve(i):
@@ -117,7 +125,7 @@ def _solve(i):
                 s.set('timeout', 4000)
                 for c in ints:
                     s.add(c >= -bound, c <= bound)
-                if s.check() == z3.sat:
+                if _guarded_check(s, 4000) == z3.sat:
                     m = s.model()
                     s.pop()
                     break
@@ -131,6 +139,27 @@ def _solve(i):
     return i, res
 
 
+def _batch(idxs):
+    """Obligations emitted at the same point of the same path share their path condition: try their
+    conjunction in one query first; `unsat` discharges them all, anything else falls back to one query each."""
+    if len(idxs) > 1:
+        ob0 = _OBS[idxs[0]][0]
+        t0 = time.time()
+        s = z3.Solver()
+        s.set('timeout', _CFG['timeout'])
+        s.add(*ob0.pc)
+        s.add(z3.Not(z3.And(*[_OBS[i][0].goal for i in idxs])))
+        if _guarded_check(s, _CFG['timeout']) == z3.unsat:
+            ms = int(1000 * (time.time() - t0))
+            return [(i, {'status': 'unsat', 'backend': 'z3', 'ms': ms // len(idxs), 'batched': len(idxs)}) for i in idxs]
+        if ob0.defs:
+            s.add(*ob0.defs)
+            if _guarded_check(s, _CFG['timeout']) == z3.unsat:
+                ms = int(1000 * (time.time() - t0))
+                return [(i, {'status': 'unsat', 'backend': 'z3', 'ms': ms // len(idxs), 'batched': len(idxs)}) for i in idxs]
+    return [_solve(i) for i in idxs]
+
+
 def discharge(obligations, witness_terms, timeout_ms=20000, procs=None, second_backend=False, cvc5=True):
     """obligations: list of engine.Obligation; witness_terms: parallel list of callables or None.
     Sets ob.result = {'status': 'unsat'|'sat'|'unknown', 'backend', 'ms', 'model'?}."""
@@ -140,12 +169,100 @@ def discharge(obligations, witness_terms, timeout_ms=20000, procs=None, second_b
     procs = procs or min(16, os.cpu_count() or 4)
     if not _OBS:
         return
+    batches = {}
+    for i, (ob, _) in enumerate(_OBS):
+        if ob.kind in ('post', 'frame', 'raises', 'post_on_raise') and not second_backend:
+            key = (ob.func, ob.name.split('/')[0], ob.path, tuple(c.get_id() for c in ob.pc))
+        else:
+            key = ('single', i)
+        batches.setdefault(key, []).append(i)
+    work = list(batches.values())
     if procs == 1 or len(_OBS) < 4:
-        for i in range(len(_OBS)):
-            _, res = _solve(i)
-            obligations[i].result = res
+        for idxs in work:
+            for i, res in _batch(idxs):
+                obligations[i].result = res
         return
+    for i, res in _run_pool(work, procs, hard_limit_s=max(45.0, 3.0 * timeout_ms / 1000.0)):
+        obligations[i].result = res
+
+
+def _worker(conn):
+    while True:
+        try:
+            k = conn.recv()
+        except EOFError:
+            return
+        if k is None:
+            return
+        idxs, dio = k
+        if not dio:
+            z3.set_param('lp.dio', False)
+        conn.send(_batch(idxs))
+
+
+def _run_pool(work, procs, hard_limit_s):
+    """fork()ed workers fed one batch at a time; a worker that does not answer within the hard wall-clock limit
+    (z3 5.1's integer procedures do not always honour their timeout or an interrupt) is killed, its batch is
+    retried once without the Diophantine-equation module and otherwise recorded as `unknown`."""
+    from multiprocessing.connection import wait
     ctx = mp.get_context('fork')
-    with ctx.Pool(procs) as pool:
-        for i, res in pool.imap_unordered(_solve, range(len(_OBS)), chunksize=1):
-            obligations[i].result = res
+    pending = [(idxs, True) for idxs in work]
+    pending.reverse()
+    workers = {}           # conn -> [process, (idxs, dio) | None, start time]
+    results = []
+
+    def spawn():
+        parent, child = ctx.Pipe()
+        p = ctx.Process(target=_worker, args=(child,), daemon=True)
+        p.start()
+        child.close()
+        workers[parent] = [p, None, 0.0]
+
+    for _ in range(min(procs, len(pending))):
+        spawn()
+    try:
+        while pending or any(w[1] is not None for w in workers.values()):
+            for conn, w in list(workers.items()):
+                if w[1] is None and pending:
+                    w[1], w[2] = pending.pop(), time.time()
+                    try:
+                        conn.send(w[1])
+                    except OSError:
+                        w[2] = -1e18
+            busy = [c for c, w in workers.items() if w[1] is not None]
+            for conn in wait(busy, timeout=1.0):
+                w = workers[conn]
+                try:
+                    results.extend(conn.recv())
+                except (EOFError, OSError):          # the worker died (out of memory, crash): same treatment as a hang
+                    w[2] = -1e18
+                    continue
+                w[1] = None
+            now = time.time()
+            for conn, w in list(workers.items()):
+                if w[1] is not None and now - w[2] > hard_limit_s:
+                    idxs, dio = w[1]
+                    try:
+                        w[0].kill()
+                    except Exception:
+                        pass
+                    conn.close()
+                    del workers[conn]
+                    if dio and len(idxs) > 1:
+                        pending.extend(([i], True) for i in idxs)      # retry the batch's members one by one
+                    elif dio:
+                        pending.append((idxs, False))                  # then once without the Diophantine module
+                    else:
+                        results.extend((i, {'status': 'unknown', 'backend': 'z3', 'ms': int(1000 * hard_limit_s),
+                                            'reason': 'hard wall-clock limit: solver did not return'}) for i in idxs)
+                    spawn()
+    finally:
+        for conn, w in workers.items():
+            try:
+                conn.send(None)
+            except Exception:
+                pass
+            w[0].join(timeout=0.2)
+            if w[0].is_alive():
+                w[0].kill()
+    return results
